@@ -33,6 +33,7 @@ type Op struct {
 	Auth string       `json:"auth,omitempty"` // how the generator signed it: "" = valid, else e.g. "mut:amount", "wrongkey", "wrongchain"
 	Tag  string       `json:"tag,omitempty"`  // generator's label
 	Path string       `json:"path,omitempty"`
+	Self bool         `json:"self,omitempty"` // (injection pool) a self-staking transaction
 	Data string       `json:"data,omitempty"` // query data, hex
 	QH   int64        `json:"qh,omitempty"`   // query height
 	Only string       `json:"only,omitempty"` // execute only on the replica with this name (injections)
